@@ -10,6 +10,7 @@ import (
 	"fmt"
 	"sort"
 	"strings"
+	"sync"
 
 	"github.com/pilosa/pilosa/internal/vx"
 )
@@ -84,6 +85,40 @@ func c04Fmt(a []uint64) string {
 type c04Shape struct {
 	name string
 	vals []uint16 // strictly ascending
+
+	once [2]sync.Once
+	body [2][]byte // cached official container bodies: [0] array-or-bitset, [1] run
+}
+
+// officialBody returns the container's bytes in the official format (see c04EncodeOfficial).
+func (s *c04Shape) officialBody(run bool) []byte {
+	i := 0
+	if run {
+		i = 1
+	}
+	s.once[i].Do(func() {
+		le := binary.LittleEndian
+		var out []byte
+		switch {
+		case run:
+			rs := s.runs()
+			out = le.AppendUint16(out, uint16(len(rs)))
+			for _, r := range rs {
+				out = le.AppendUint16(out, r[0])
+				out = le.AppendUint16(out, r[1]-r[0])
+			}
+		case len(s.vals) <= 4096:
+			for _, v := range s.vals {
+				out = le.AppendUint16(out, v)
+			}
+		default:
+			for _, x := range s.words() {
+				out = le.AppendUint64(out, x)
+			}
+		}
+		s.body[i] = out
+	})
+	return s.body[i]
 }
 
 func (s *c04Shape) runs() [][2]uint16 { // (start, last)
@@ -111,7 +146,7 @@ func c04Seq(name string, n int, f func(i int) int) *c04Shape {
 	for i := range v {
 		v[i] = uint16(f(i))
 	}
-	return &c04Shape{name, v}
+	return &c04Shape{name: name, vals: v}
 }
 
 func c04Masks(U []uint16) []*c04Shape {
@@ -123,7 +158,7 @@ func c04Masks(U []uint16) []*c04Shape {
 				v = append(v, u)
 			}
 		}
-		out = append(out, &c04Shape{fmt.Sprint(v), v})
+		out = append(out, &c04Shape{name: fmt.Sprint(v), vals: v})
 	}
 	return out
 }
@@ -242,7 +277,6 @@ func c04EncodeOfficial(cs []c04Cont, run []bool) []byte {
 	le := binary.LittleEndian
 	u16 := func(w *bytes.Buffer, v uint16) { var b [2]byte; le.PutUint16(b[:], v); w.Write(b[:]) }
 	u32 := func(w *bytes.Buffer, v uint32) { var b [4]byte; le.PutUint32(b[:], v); w.Write(b[:]) }
-	u64 := func(w *bytes.Buffer, v uint64) { var b [8]byte; le.PutUint64(b[:], v); w.Write(b[:]) }
 	if anyRun {
 		u32(&hdr, 12347|uint32(n-1)<<16)
 		bs := make([]byte, (n+7)/8)
@@ -265,25 +299,7 @@ func c04EncodeOfficial(cs []c04Cont, run []bool) []byte {
 	}
 	bodies := make([][]byte, n)
 	for i, c := range cs {
-		var w bytes.Buffer
-		switch {
-		case anyRun && run[i]:
-			rs := c.sh.runs()
-			u16(&w, uint16(len(rs)))
-			for _, r := range rs {
-				u16(&w, r[0])
-				u16(&w, r[1]-r[0])
-			}
-		case len(c.sh.vals) <= 4096:
-			for _, v := range c.sh.vals {
-				u16(&w, v)
-			}
-		default:
-			for _, x := range c.sh.words() {
-				u64(&w, x)
-			}
-		}
-		bodies[i] = w.Bytes()
+		bodies[i] = c.sh.officialBody(anyRun && run[i])
 	}
 	if !anyRun || n >= 4 {
 		off := hdr.Len() + 4*n
